@@ -48,16 +48,44 @@ def log(msg):
 # Lean side
 
 class _Lock(object):
+  """exclusive use of the Lean directory (generated constants, build products); re-entrant within one process"""
+  depth = 0
+  f = None
 
   def __enter__(self):
-    os.makedirs(os.path.join(LEAN_DIR, '.lake'), exist_ok=True)
-    self.f = open(os.path.join(LEAN_DIR, '.lake', 'verif.lock'), 'w')
-    fcntl.flock(self.f, fcntl.LOCK_EX)
+    if _Lock.depth == 0:
+      os.makedirs(os.path.join(LEAN_DIR, '.lake'), exist_ok=True)
+      _Lock.f = open(os.path.join(LEAN_DIR, '.lake', 'verif.lock'), 'w')
+      fcntl.flock(_Lock.f, fcntl.LOCK_EX)
+    _Lock.depth += 1
     return self
 
   def __exit__(self, *a):
-    fcntl.flock(self.f, fcntl.LOCK_UN)
-    self.f.close()
+    _Lock.depth -= 1
+    if _Lock.depth == 0:
+      fcntl.flock(_Lock.f, fcntl.LOCK_UN)
+      _Lock.f.close()
+      _Lock.f = None
+
+
+lean_lock = _Lock
+
+_PRIVATE_DRIVER = [None]
+
+
+def snapshot_driver():
+  """Copies the driver built for THIS run's constants to a private file: another check running at the same time (on
+  another tree: bin/selftest) regenerates the constants and rebuilds the shared binary."""
+  import atexit
+  import shutil
+  import tempfile
+  src = os.path.join(LEAN_DIR, '.lake', 'build', 'bin', 'driver')
+  fd, dst = tempfile.mkstemp(prefix='verif-driver.')
+  os.close(fd)
+  shutil.copy2(src, dst)
+  os.chmod(dst, 0o755)
+  _PRIVATE_DRIVER[0] = dst
+  atexit.register(lambda: os.path.exists(dst) and os.remove(dst))
 
 
 def regen_constants():
@@ -130,7 +158,7 @@ def print_axioms(module, theorems, timeout=900):
 
 def run_driver(lines, timeout=1800):
   """Step 4 (Lean half). One output line per input line."""
-  exe = os.path.join(LEAN_DIR, '.lake', 'build', 'bin', 'driver')
+  exe = _PRIVATE_DRIVER[0] or os.path.join(LEAN_DIR, '.lake', 'build', 'bin', 'driver')
   data = ('\n'.join(lines) + '\n').encode()
   p = subprocess.run([exe], input=data, stdout=subprocess.PIPE, stderr=subprocess.PIPE,
                      timeout=timeout)
